@@ -134,8 +134,46 @@ func newObj(r *core.Rand, k gen.Kind, mutateBuf bool) *c18Obj {
 	return newObjFlav(r, k, mutateBuf, r.Pick(flavGenerated, flavGenerated, flavDecoded, flavSlack))
 }
 
+// degenerate returns a value of kind k with empty lists / zero fields: purity and freedom from
+// races must not depend on the value being well-formed (an empty NACK still marshals).
+func degenerate(r *core.Rand, k gen.Kind) rtcp.Packet {
+	p := gen.New(k)
+	switch v := p.(type) {
+	case *rtcp.TransportLayerNack:
+		v.SenderSSRC, v.MediaSSRC = r.U32(), r.U32()
+	case *rtcp.SliceLossIndication:
+		v.SenderSSRC, v.MediaSSRC = r.U32(), r.U32()
+	case *rtcp.FullIntraRequest:
+		v.SenderSSRC, v.MediaSSRC = r.U32(), r.U32()
+	case *rtcp.TransportLayerCC:
+		v.SenderSSRC, v.MediaSSRC = r.U32(), r.U32()
+		v.Header = rtcp.Header{Count: 15, Type: 205, Length: uint16(r.Pick(2, 4, 0))}
+	case *rtcp.SourceDescription:
+		if r.Bool() {
+			v.Chunks = []rtcp.SourceDescriptionChunk{{Source: r.U32()}}
+		}
+	case *rtcp.ExtendedReport:
+		v.SenderSSRC = r.U32()
+		if r.Bool() {
+			v.Reports = []rtcp.ReportBlock{&rtcp.DLRRReportBlock{}, &rtcp.LossRLEReportBlock{}, &rtcp.UnknownReportBlock{}}
+		}
+	case *rtcp.CCFeedbackReport:
+		if r.Bool() {
+			v.ReportBlocks = []rtcp.CCFeedbackReportBlock{{MediaSSRC: r.U32()}}
+		}
+	case *rtcp.RawPacket:
+		if r.Bool() {
+			*v = rtcp.RawPacket{0x80, byte(r.Pick(199, 208)), 0, 0}
+		}
+	}
+	return p
+}
+
 func newObjFlav(r *core.Rand, k gen.Kind, mutateBuf bool, flav int) *c18Obj {
 	p := gen.Packet(r, k, gen.Opts{Small: r.Chance(3, 4), NoBig: true, AllowKF: r.Chance(1, 6)})
+	if flav == flavGenerated && r.Chance(1, 6) {
+		p = degenerate(r, k)
+	}
 	o := &c18Obj{kind: k, p: p, flav: flav}
 	var enc []byte
 	if b, err, pan := gMarshal(clonePacket(p)); err == nil && pan == "" {
